@@ -451,9 +451,9 @@ end encname
 
 theorem sectStyle_Bar : SectStyle .enc (cfgBar fs fo) [124] [] where
   optLine := by
-    intro e s src prev junk n pre post tr rest ov h1 h2 h3 h4 h5 h6 h7 h8 h9 h10
+    intro e s src prev junk n pre post tr rest ov h1 h2 h3 h4 h5 hnc h6 h7 h8 h9 h10
     simp only [next]
-    exact enc_option_line (flatCfg_Bar (fs := fs) (fo := fo)) (by decide) (by decide) e s src prev junk n pre post tr rest ov h1 h2 (Or.inl h3) h4 h5 h6 h7 h8 h9 h10
+    exact enc_option_line (flatCfg_Bar (fs := fs) (fo := fo)) rfl rfl e s src prev junk n pre post tr rest ov h1 h2 (Or.inl h3) h4 h5 hnc h6 h7 h8 h9 h10
   eof := by
     intro s src prev junk b _ hprev hj hsrc
     obtain ⟨ln, src1, hnv, _⟩ := nextvis_end (flatCfg_Bar (fs := fs) (fo := fo)).hash junk b s src hj hsrc
@@ -469,13 +469,13 @@ theorem sectStyle_Bar : SectStyle .enc (cfgBar fs fo) [124] [] where
     have hp2 : (prev == Flag.sectEnd) = false := by rcases hprev with h | h <;> subst h <;> decide
     simp [hnv, hp2]
   headFirst := by
-    intro s src prev junk n tr rest hclean hv hprev hj hn htr hsrc
+    intro s src prev junk n tr rest hclean hv hprev hj hn hnc htr hsrc
     have hsrc' : src.rest = junk ++ 124 :: (n ++ tr ++ 10 :: rest) := by
       rw [hsrc]; simp [List.append_assoc]
     obtain ⟨ln, src1, hnv, hr1⟩ := nextvis_skip (flatCfg_Bar (fs := fs) (fo := fo)).hash junk 124 _ s src hj (by decide) hsrc'
     have hclean1 : Clean [] ({ s with line := ln } : St).path := hclean
     obtain ⟨l, fi', ln', src2, J', hes, hJ', hr2⟩ := encSection_head (flatCfg_Bar (fs := fs) (fo := fo)) [] { s with line := ln } src1 n tr rest
-      hclean1 hv hn htr hr1
+      hclean1 hv hn hnc htr hr1
     have hp2 : (prev == Flag.sectEnd) = false := by rcases hprev with h | h <;> subst h <;> decide
     have hem : s.path.elems.isEmpty = true := by rw [hclean.1]; rfl
     refine ⟨_, src2, J', ?_, ⟨l, fi', 0, ln', rfl⟩, hJ', hr2⟩
@@ -491,10 +491,10 @@ theorem sectStyle_Bar : SectStyle .enc (cfgBar fs fo) [124] [] where
     simp only [hp2, Bool.false_eq_true, ↓reduceIte, hnv, hem]
     simp [Flag.sectEnd]
   headNext := by
-    intro s src n tr rest hclean hv hn htr hsrc
+    intro s src n tr rest hclean hv hn hnc htr hsrc
     have hsrc' : src.rest = n ++ tr ++ 10 :: rest := by
       rw [hsrc]; simp [List.append_assoc]
-    obtain ⟨l, fi', ln', src2, J', hes, hJ', hr2⟩ := encSection_head (flatCfg_Bar (fs := fs) (fo := fo)) [] s src n tr rest hclean hv hn htr hsrc'
+    obtain ⟨l, fi', ln', src2, J', hes, hJ', hr2⟩ := encSection_head (flatCfg_Bar (fs := fs) (fo := fo)) [] s src n tr rest hclean hv hn hnc htr hsrc'
     refine ⟨_, src2, J', ?_, ⟨l, fi', 0, ln', rfl⟩, hJ', hr2⟩
     simp only [next, parseFormatEnc]
     simp [hes, Flag.sectEnd]
@@ -524,11 +524,11 @@ theorem sepBody_name (e : List (List UInt8)) (l : List UInt8) (k : Bool) (fi : U
   simp [h93, hsp, hcom]
 
 /-- the loop of the section name -/
-abbrev sepStep : St → UInt8 → Step St SepExit := fun s c => sepBody (cfgS fs fo).fmt (s.save c) c
+abbrev sepStep (fs fo : Nat) : St → UInt8 → Step St SepExit := fun s c => sepBody (cfgS fs fo).fmt (s.save c) c
 
 theorem run_sep_name (e : List (List UInt8)) (fi : UInt8) (cur ln : Nat) :
     ∀ (w l : List UInt8), w.all nameChar = true →
-      runSteps sepStep (Stt e l true fi l.length cur ln) w = some (Stt e (l ++ w) true fi (l ++ w).length cur ln) := by
+      runSteps (sepStep fs fo) (Stt e l true fi l.length cur ln) w = some (Stt e (l ++ w) true fi (l ++ w).length cur ln) := by
   intro w
   induction w with
   | nil => intro l _; simp [runSteps]
@@ -538,7 +538,7 @@ theorem run_sep_name (e : List (List UInt8)) (fi : UInt8) (cur ln : Nat) :
     obtain ⟨h0, h10, _⟩ := nameChar_facts c h.1
     have h10' : (c == 10) = false := by simp [h10]
     simp only [runSteps, sepStep, save_stt _ _ _ _ _ _ _ _ h0, addchar_keep, h10']
-    rw [sepBody_name _ _ _ _ _ _ _ _ h.1]
+    rw [sepBody_name (fs := fs) (fo := fo) _ _ _ _ _ _ _ _ h.1]
     simp only [Bool.true_or, Bool.false_eq_true, ↓reduceIte]
     have := ih (l ++ [c]) h.2
     simpa using this
@@ -567,16 +567,16 @@ theorem sepFirst_name (e : List (List UInt8)) (s : St) (src : Src) (n rest : Lis
         simp only at hv hclean
         subst hv
         simp only [St.save, h00, Bool.false_eq_true, ↓reduceIte, h10', addchar_clean hclean c0]
-    have hrun := run_sep_name e s.path.first s.curr s.line n' [c0] hn'.1.2.2
+    have hrun := run_sep_name (fs := fs) (fo := fo) e s.path.first s.curr s.line n' [c0] hn'.1.2.2
     simp only [List.length_singleton] at hrun
     have hsv93 : (Stt e ([c0] ++ n') true s.path.first ([c0] ++ n').length s.curr s.line).save 93
         = Stt e ([c0] ++ n' ++ [93]) true s.path.first ([c0] ++ n').length s.curr s.line := by
       rw [save_stt _ _ _ _ _ _ _ _ (by decide)]; simp
-    have hstep : sepStep (Stt e ([c0] ++ n') true s.path.first ([c0] ++ n').length s.curr s.line) 93
+    have hstep : (sepStep fs fo) (Stt e ([c0] ++ n') true s.path.first ([c0] ++ n').length s.curr s.line) 93
         = .done (.sect (Stt e ([c0] ++ n' ++ [93]) true s.path.first ([c0] ++ n').length s.curr s.line)) := by
       simp only [sepStep, hsv93]
       simp [sepBody]
-    obtain ⟨src2, hscan, hr2⟩ := scan_prefix_done sepStep (fun s => SepExit.brk s) n' 93 rest src1 _ _ _ hr1 hrun hstep
+    obtain ⟨src2, hscan, hr2⟩ := scan_prefix_done (sepStep fs fo) (fun s => SepExit.brk s) n' 93 rest src1 _ _ _ hr1 hrun hstep
     have htake : ([c0] ++ n' ++ [93]).take ([c0] ++ n').length = c0 :: n' := by
       rw [List.take_left' rfl]; rfl
     have hadd := add_pth e ([c0] ++ n' ++ [93]) true s.path.first ([c0] ++ n').length
@@ -587,10 +587,10 @@ theorem sepFirst_name (e : List (List UInt8)) (s : St) (src : Src) (n rest : Lis
       (if e.isEmpty = true then UInt8.ofNat ([c0] ++ n').length else s.path.first), ([c0] ++ n').length, s.line,
       src2, ?_, hr2⟩
     unfold sepFirst
-    have hne : ((cfgS fs fo).fmt.send != (cfgS fs fo).fmt.sstart) = true := by decide
+    have hne : ((cfgS fs fo).fmt.send != (cfgS fs fo).fmt.sstart) = true := rfl
     simp only [hne, ↓reduceIte, hg, hsave]
     unfold sepName
-    rw [sepBody_name _ _ _ _ _ _ _ _ hn'.1.2.1]
+    rw [sepBody_name (fs := fs) (fo := fo) _ _ _ _ _ _ _ _ hn'.1.2.1]
     simp only [List.isEmpty_cons, Bool.not_false, Bool.or_true, List.length_cons, List.length_nil, Nat.zero_add,
       hscan]
     unfold sepExit St.commit
@@ -603,7 +603,7 @@ theorem sepFirst_name (e : List (List UInt8)) (s : St) (src : Src) (n rest : Lis
 
 theorem sectStyle_Sep : SectStyle .sep (cfgS fs fo) [91] [93] where
   optLine := by
-    intro e s src prev junk n pre post tr rest ov hclean hv hprev hj hn hpre hpost htr hval hsrc
+    intro e s src prev junk n pre post tr rest ov hclean hv hprev hj hn hnc hpre hpost htr hval hsrc
     have hn' := hn
     unfold nameOk at hn'
     simp only [Bool.and_eq_true] at hn'
@@ -618,7 +618,7 @@ theorem sectStyle_Sep : SectStyle .sep (cfgS fs fo) [91] [93] where
         (by simp [hsrc, List.append_assoc])
       have hp2 : (prev &&& 0xf == Flag.sectEnd) = false := by
         rcases hprev with h | h | h <;> subst h <;> decide
-      have hopt := option_rest (flatCfg_S (fs := fs) (fo := fo)) e c0 n' pre post tr rest s.path.first Flag.name ln ov src1 hn hpre hpost htr
+      have hopt := option_rest (flatCfg_S (fs := fs) (fo := fo)) e c0 n' pre post tr rest s.path.first Flag.name ln ov src1 hn hnc hpre hpost htr
         hval hr1
       simp only [next, parseFormatSep, hp2, Bool.false_eq_true, ↓reduceIte, hnv, bne_iff_ne, ne_eq]
       have h1 : ¬ c0 = (cfgS fs fo).fmt.sstart := h91
@@ -644,13 +644,13 @@ theorem sectStyle_Sep : SectStyle .sep (cfgS fs fo) [91] [93] where
     simp only [hp2, Bool.false_eq_true, ↓reduceIte, hnv]
     rfl
   headFirst := by
-    intro s src prev junk n tr rest hclean hv hprev hj hn htr hsrc
+    intro s src prev junk n tr rest hclean hv hprev hj hn hnc htr hsrc
     have hsrc' : src.rest = junk ++ 91 :: (n ++ 93 :: ((tr ++ [10]) ++ rest)) := by
       rw [hsrc]; simp [List.append_assoc]
     obtain ⟨ln, src1, hnv, hr1⟩ := nextvis_skip (flatCfg_S (fs := fs) (fo := fo)).hash junk 91 _ s src hj (by decide) hsrc'
     have hclean1 : Clean [] ({ s with line := ln, curr := Flag.section_ } : St).path := hclean
-    obtain ⟨l, fi', v', ln', src2, hes, hr2⟩ := sepFirst_name [] { s with line := ln, curr := Flag.section_ } src1 n
-      ((tr ++ [10]) ++ rest) hclean1 hv hn hr1
+    obtain ⟨l, fi', v', ln', src2, hes, hr2⟩ := sepFirst_name (fs := fs) (fo := fo) [] { s with line := ln, curr := Flag.section_ } src1 n
+      ((tr ++ [10]) ++ rest) hclean1 hv hn hnc hr1
     have hp2 : (prev &&& 0xf == Flag.sectEnd) = false := by rcases hprev with h | h <;> subst h <;> decide
     have hem : s.path.elems.isEmpty = true := by rw [hclean.1]; rfl
     refine ⟨_, src2, tr ++ [10], ?_, ⟨l, fi', v', ln', rfl⟩, visSkip_headTrail tr htr, hr2⟩
@@ -666,12 +666,12 @@ theorem sectStyle_Sep : SectStyle .sep (cfgS fs fo) [91] [93] where
     simp only [hp2, Bool.false_eq_true, ↓reduceIte, hnv, hem]
     simp [Flag.sectEnd]
   headNext := by
-    intro s src n tr rest hclean hv hn htr hsrc
+    intro s src n tr rest hclean hv hn hnc htr hsrc
     have hsrc' : src.rest = n ++ 93 :: ((tr ++ [10]) ++ rest) := by
       rw [hsrc]; simp [List.append_assoc]
     have hclean1 : Clean [] ({ s with curr := Flag.section_ } : St).path := hclean
-    obtain ⟨l, fi', v', ln', src2, hes, hr2⟩ := sepFirst_name [] { s with curr := Flag.section_ } src n
-      ((tr ++ [10]) ++ rest) hclean1 hv hn hsrc'
+    obtain ⟨l, fi', v', ln', src2, hes, hr2⟩ := sepFirst_name (fs := fs) (fo := fo) [] { s with curr := Flag.section_ } src n
+      ((tr ++ [10]) ++ rest) hclean1 hv hn hnc hsrc'
     refine ⟨_, src2, tr ++ [10], ?_, ⟨l, fi', v', ln', rfl⟩, visSkip_headTrail tr htr, hr2⟩
     simp only [next, parseFormatSep]
     have hp2 : ((2 : Nat) &&& 0xf == Flag.sectEnd) = true := by decide
